@@ -627,11 +627,42 @@ func (in *inliner) rewriteStmt(p *packages.Package, file *ast.File, st ast.Stmt)
 			return []ast.Stmt{&ast.EmptyStmt{}}
 		}
 		return append(pre, body...)
+	case *ast.DeferStmt:
+		h, call := in.helperOf(p, x.Call)
+		if h == nil || h.kind != hkStmt {
+			return nil
+		}
+		// only with arguments that mean the same when the deferred function runs
+		for _, a := range call.Args {
+			if _, isLit := ast.Unparen(a).(*ast.BasicLit); !isLit {
+				if _, isConst := constBool(p, a); !isConst {
+					return nil
+				}
+			}
+		}
+		if h.hasRcv {
+			se, ok := ast.Unparen(call.Fun).(*ast.SelectorExpr)
+			if !ok {
+				return nil
+			}
+			if _, isId := ast.Unparen(se.X).(*ast.Ident); !isId {
+				return nil
+			}
+		}
+		pre, body, ok := in.instantiate(p, h, call)
+		if !ok || len(pre) > 0 {
+			return nil
+		}
+		body = guardsToNesting(body)
+		return []ast.Stmt{&ast.DeferStmt{Call: &ast.CallExpr{Fun: &ast.FuncLit{Type: &ast.FuncType{Params: &ast.FieldList{}}, Body: &ast.BlockStmt{List: body}}}}}
 	case *ast.AssignStmt:
 		if len(x.Rhs) != 1 || (x.Tok != token.DEFINE && x.Tok != token.ASSIGN) {
 			return nil
 		}
 		h, call := in.helperOf(p, x.Rhs[0])
+		if h != nil && h.kind == hkMulti && len(x.Lhs) == 1 && h.fn.Type().(*types.Signature).Results().Len() == 1 {
+			return in.guardChainAssign(p, file, x, h, call)
+		}
 		if h == nil || h.kind != hkValue {
 			return nil
 		}
@@ -776,6 +807,11 @@ func inlineTree(src, dst string) (int, error) {
 			break
 		}
 	}
+	if total > 0 {
+		if err := dropDeadHelpers(dst); err != nil {
+			return total, err
+		}
+	}
 	return total, nil
 }
 
@@ -813,6 +849,35 @@ func inlineOnce(dir string) (int, error) {
 					}
 				}
 			}
+		}
+	}
+	// … and only where a port rule compares the function: a new helper that
+	// merely shares its name with something in go/scanner is inlined
+	ported := map[string]bool{}
+	addPort := func(k string) {
+		if i := strings.LastIndex(k, "."); i >= 0 {
+			k = k[i+1:]
+		}
+		ported[strings.ToLower(k)] = true
+	}
+	for _, k := range fmtPortIdentical {
+		addPort(k)
+	}
+	for k := range fmtNearPorts {
+		addPort(k)
+	}
+	for k := range jsonPorts {
+		addPort(k)
+	}
+	for k := range scanPorts {
+		addPort(k)
+	}
+	for _, k := range []string{"doTextReplace", "searchInts", "writePadding", "fmtFloat", "fmtInteger", "fmtC", "fmtQc", "fmtUnicode", "fmtBoolean", "printArg", "doFormat", "getu4", "unquoteBytes", "unquote", "checkValid", "stateEndValue", "stateBeginValue"} {
+		addPort(k)
+	}
+	for k := range refNames {
+		if !ported[k] && !strings.HasPrefix(k, "state") && !strings.HasPrefix(k, "fmt") {
+			delete(refNames, k)
 		}
 	}
 	in.refNames = refNames
@@ -1016,4 +1081,136 @@ func mergeVarDecls(list []ast.Stmt) []ast.Stmt {
 		}
 	}
 	return out
+}
+
+// guardChainAssign: `x := h(args)` for a helper of the shape
+// `if c1 { return e1 } … return en` becomes `x := en; if c1 { x = e1 } …`
+// (the spelling hand-written code uses; evaluation order is immaterial in a
+// view that is read, not run).
+func (in *inliner) guardChainAssign(p *packages.Package, file *ast.File, x *ast.AssignStmt, h *helperInfo, call *ast.CallExpr) []ast.Stmt {
+	L := h.decl.Body.List
+	if len(L) < 2 || len(h.named) > 0 {
+		return nil
+	}
+	for _, st := range L[:len(L)-1] {
+		is, ok := st.(*ast.IfStmt)
+		if !ok || is.Else != nil || is.Init != nil || len(is.Body.List) != 1 {
+			return nil
+		}
+		if r, ok := is.Body.List[0].(*ast.ReturnStmt); !ok || len(r.Results) != 1 {
+			return nil
+		}
+	}
+	if r, ok := L[len(L)-1].(*ast.ReturnStmt); !ok || len(r.Results) != 1 {
+		return nil
+	}
+	lid, ok := x.Lhs[0].(*ast.Ident)
+	if !ok || lid.Name == "_" {
+		return nil
+	}
+	pre, body, ok := in.instantiate(p, h, call)
+	if !ok {
+		return nil
+	}
+	n := len(body)
+	last := body[n-1].(*ast.ReturnStmt).Results[0]
+	out := append([]ast.Stmt{}, pre...)
+	out = append(out, &ast.AssignStmt{Lhs: []ast.Expr{&ast.Ident{Name: lid.Name}}, Tok: x.Tok, Rhs: []ast.Expr{last}})
+	// guards in reverse order of priority: the first guard wins, so it is applied last
+	for i := n - 2; i >= 0; i-- {
+		is := body[i].(*ast.IfStmt)
+		val := is.Body.List[0].(*ast.ReturnStmt).Results[0]
+		out = append(out, &ast.IfStmt{Cond: is.Cond, Body: &ast.BlockStmt{List: []ast.Stmt{&ast.AssignStmt{Lhs: []ast.Expr{&ast.Ident{Name: lid.Name}}, Tok: token.ASSIGN, Rhs: []ast.Expr{val}}}}})
+	}
+	return out
+}
+
+// dropDeadHelpers removes, from the view, declarations of helpers that are no
+// longer referenced once their calls are inlined (a rule that reads every
+// function would otherwise judge the orphaned template on its own).
+func dropDeadHelpers(dir string) error {
+	env := []string{}
+	for _, e := range os.Environ() {
+		if strings.HasPrefix(e, "GOWORK=") || strings.HasPrefix(e, "GOFLAGS=") {
+			continue
+		}
+		env = append(env, e)
+	}
+	env = append(env, "GOFLAGS=-mod=mod", "GOWORK=off", "GOPROXY=off", "GOSUMDB=off", "GOTOOLCHAIN=local")
+	fset := token.NewFileSet()
+	cfg := &packages.Config{
+		Mode: packages.NeedName | packages.NeedFiles | packages.NeedCompiledGoFiles | packages.NeedImports | packages.NeedDeps |
+			packages.NeedTypes | packages.NeedSyntax | packages.NeedTypesInfo | packages.NeedModule,
+		Dir: dir, Env: env, Fset: fset, Tests: true,
+	}
+	pkgs, err := packages.Load(cfg, "./...")
+	if err != nil {
+		return err
+	}
+	used := map[string]bool{} // pkgpath.recv.name of every function referenced anywhere (tests included)
+	keyOf := func(fn *types.Func) string {
+		k := fn.Pkg().Path() + "."
+		if r := fn.Type().(*types.Signature).Recv(); r != nil {
+			n, _ := namedName(r.Type())
+			k += n + "."
+		}
+		return k + fn.Name()
+	}
+	ifaceMethods := map[string]bool{}
+	for _, p := range pkgs {
+		for _, o := range p.TypesInfo.Uses {
+			if fn, ok := o.(*types.Func); ok && fn.Pkg() != nil {
+				used[keyOf(fn)] = true
+			}
+		}
+		for _, tv := range p.TypesInfo.Types {
+			if it, ok := tv.Type.Underlying().(*types.Interface); ok {
+				for i := 0; i < it.NumMethods(); i++ {
+					ifaceMethods[it.Method(i).Name()] = true
+				}
+			}
+		}
+	}
+	in := &inliner{helpers: map[*types.Func]*helperInfo{}, refNames: map[string]bool{}}
+	for _, p := range pkgs {
+		if strings.HasSuffix(p.ID, ".test]") || strings.HasSuffix(p.ID, ".test") || strings.Contains(p.ID, "_test") {
+			continue
+		}
+		for fi, f := range p.Syntax {
+			if fi >= len(p.CompiledGoFiles) || strings.HasSuffix(p.CompiledGoFiles[fi], "_test.go") {
+				continue
+			}
+			var keep []ast.Decl
+			changed := false
+			for _, d := range f.Decls {
+				fd, ok := d.(*ast.FuncDecl)
+				if ok {
+					if h := in.classify(p, fd); h != nil && !used[keyOf(h.fn)] && !ifaceMethods[fd.Name.Name] {
+						changed = true
+						continue
+					}
+				}
+				keep = append(keep, d)
+			}
+			if !changed {
+				continue
+			}
+			f.Decls = keep
+			var buf bytes.Buffer
+			var cm []*ast.CommentGroup
+			for _, cg := range f.Comments {
+				if cg.End() < f.Package {
+					cm = append(cm, cg)
+				}
+			}
+			f.Comments = cm
+			if err := format.Node(&buf, fset, f); err != nil {
+				return err
+			}
+			if err := os.WriteFile(p.CompiledGoFiles[fi], buf.Bytes(), 0o644); err != nil {
+				return err
+			}
+		}
+	}
+	return nil
 }
